@@ -83,6 +83,50 @@ def first_read_fails(ck, rng, stats):
                     break
 
 
+def hops(ck, stats, nontrivial):
+    """The directory that matters is the one HOLDING the link that is judged, wherever the walk came from: the judged link is
+    reached through another (harmless, caller-owned) link that sits in a directory of the opposite kind -- with an absolute body,
+    a relative body leading up and over, and with the judged link directly in the root (whose mode is varied too).  Kernel's raw
+    openat2 as that uid vs the emulated backend as that uid, sysctl = 1."""
+    jobs, meta = [], {}
+    jid = 0
+    for dmode, rmode, luid, caller in itertools.product([0o1777, 0o755], [0o755, 0o1777], [3000, 2000], [2000, 4000]):
+        emode = 0o755 if dmode == 0o1777 else 0o1777
+        tree = [["dir", H("root"), 0o755], ["dir", H("root/d"), 0o777], ["dir", H("root/e"), 0o777], ["file", H("root/d/target"), H("t"), 0o644],
+                ["symlink", H("root/d/lnk"), H("target")], ["symlink", H("root/rl"), H("d/target")],
+                ["symlink", H("root/e/h_abs"), H("/d/lnk")], ["symlink", H("root/e/h_rel"), H("../d/lnk")], ["symlink", H("root/e/h_root"), H("/rl")],
+                ["symlink", H("root/d/h_root"), H("/rl")], ["symlink", H("root/e/h_up"), H("../rl")],
+                ["chown", H("root/d/lnk"), luid, luid], ["chown", H("root/rl"), luid, luid]] + \
+               [["chown", H("root/" + h), caller, caller] for h in ("e/h_abs", "e/h_rel", "e/h_root", "d/h_root", "e/h_up")] + \
+               [["chmod", H("root/d"), dmode], ["chmod", H("root/e"), emode], ["chmod", H("root"), rmode]]
+        for path in ("e/h_abs", "e/h_rel", "e/h_root", "d/h_root", "e/h_up", "rl", "d/lnk"):
+            base = jid
+            jid += 1
+            jobs.append({"id": jid, "tree": tree, "op": {"k": "resolve", "path": H(path)}, "as_uid": caller})
+            jid += 1
+            jobs.append({"id": jid, "tree": tree, "op": {"k": "raw_openat2", "path": H(path), "flags": O["PATH"], "resolve": RES}, "as_uid": caller})
+            meta[base] = (dmode, emode, rmode, luid, caller, path, jid - 1, jid)
+    rc, out, res_e = run_driver(jobs, deny=("openat2",), tag="c15he")
+    rc2, out2, res_k = run_driver([j for j in jobs if j["op"]["k"] == "raw_openat2"], tag="c15hk")
+    by_e = {r["id"]: r for r in res_e if r.get("id") != "warmup"}
+    by_k = {r["id"]: r for r in res_k if r.get("id") != "warmup"}
+    for base, (dmode, emode, rmode, luid, caller, path, lid, kid) in meta.items():
+        le, kk = by_e.get(lid), by_k.get(kid)
+        if not le or not kk or "setup_err" in le.get("res", {}) or "setup_err" in kk.get("res", {}):
+            continue
+        ce, ckn = outcome(le.get("res", {})), outcome(kk.get("res", {}))
+        stats["hop_cases"] = stats.get("hop_cases", 0) + 1
+        stats["hop_kernel_refusals"] = stats.get("hop_kernel_refusals", 0) + (ckn == "err:13")
+        nontrivial.add(("hop", dmode, rmode, luid, caller, path, ckn))
+        if ce != ckn:
+            ck.violation("C15: the emulated resolver and the kernel disagree on a link that is reached through another link "
+                         "(the rule is judged with the directory that holds the link)",
+                         {"sysctl": 1, "mode_of_d": oct(dmode), "mode_of_e": oct(emode), "mode_of_the_root": oct(rmode), "owner_of_the_judged_link": luid,
+                          "caller_uid": caller, "path": path, "links": {"e/h_abs": "/d/lnk", "e/h_rel": "../d/lnk", "e/h_root": "/rl", "d/h_root": "/rl",
+                                                                         "e/h_up": "../rl", "rl": "d/target", "d/lnk": "target"},
+                          "kernel": ckn, "emulated": ce})
+
+
 def outcome(r):
     if "ok" in r:
         return "ok"
@@ -150,6 +194,7 @@ def run(ck):
                         f"if emu_may_follow {sysctl} {caller} {dmode} {duid} {luid} (ps_trailing {rest}) then 1%Z else 0%Z]")
                 cases.append((len(cases), term, ckn, ce, desc))
             if sysctl == 1:
+                hops(ck, stats, nontrivial)
                 first_read_fails(ck, rng, stats)
     finally:
         open(SYSCTL, "w").write(saved)
@@ -175,6 +220,7 @@ def run(ck):
                 "backend as that uid vs the kernel's raw openat2 as that uid vs the Coq rules; distinct by (all parameters, kernel outcome)",
         "samples": samples or [{"note": "none"}],
         "first_read_fault_runs": stats.get("first_read_faults", 0),
+        "links_reached_through_another_link_cases": stats.get("hop_cases", 0), "of_which_refused_by_the_kernel": stats.get("hop_kernel_refusals", 0),
         "kernel_refusals": stats["kernel_eacces"], "emulated_refusals": stats["emu_eacces"], "rule_evaluations_in_coq": stats["rule_checked"],
         "traces_validated_against_impl": stats["rule_checked"], "disagreements_checked": 0,
     }
